@@ -43,10 +43,11 @@ def showSetRes (r : Msg × Option SetErr) : String :=
   | none => s!"ok {dump r.1}"
   | some e => s!"err:{showSetErr e} {dump r.1}"
 
-def showAddr (r : Except GetErr Addr) : String :=
+def showAddr (r : GetRes Addr) : String :=
   match r with
   | .ok a => s!"ok {showHex a.ip}:{a.port}"
-  | .error e => s!"err:{showGetErr e}"
+  | .err e => s!"err:{showGetErr e}"
+  | .panic => "panic || -"
 
 def showNats (l : List Nat) : String := if l.isEmpty then "-" else ",".intercalate (l.map toString)
 
@@ -79,7 +80,7 @@ where stepGetx (s : CState) (toks : List String) : Option (CState × String) :=
   | ["GETX", i, kind] =>
     let m := s.get (nat! i)
     let text (k : TextKind) : String :=
-      match textGetFromAs m k.attr with | .ok v => s!"ok {showHex v}" | .error e => s!"err:{showGetErr e}"
+      match textGetFromAs m k.attr with | .ok v => s!"ok {showHex v}" | .err e => s!"err:{showGetErr e}" | .panic => "panic || -"
     match kind with
     | "user" => some (s, text .username)
     | "realm" => some (s, text .realm)
@@ -87,19 +88,21 @@ where stepGetx (s : CState) (toks : List String) : Option (CState × String) :=
     | "soft" => some (s, text .software)
     | "ec" =>
       some (s, match errorCodeGetFrom m with
-        | .ok (c, r) => s!"ok {c}:{showHex r}" | .error e => s!"err:{showGetErr e}")
+        | .ok (c, r) => s!"ok {c}:{showHex r}" | .err e => s!"err:{showGetErr e}" | .panic => "panic || -")
     | "ua" =>
       some (s, match unknownGetFrom m with
-        | .ok l => s!"ok {showNats l}" | .error e => s!"err:{showGetErr e}")
+        | .ok l => s!"ok {showNats l}" | .err e => s!"err:{showGetErr e}" | .panic => "panic || -")
     | _ => none
   | ["CHECK", i, "mi", k] =>
     let (m', r) := integrityCheck theMac (hex! k) (s.get (nat! i))
     match r with
-    | .panic => some (s, "panic")
+    | .panic => some (s, "panic || -")
     | _ => some (s.set (nat! i) m', s!"{showCheck r} {dump m'}")
   | ["CHECK", i, "fp"] =>
     let m := s.get (nat! i)
-    some (s, s!"{showCheck (fingerprintCheck m)} {dump m}")
+    some (s, match fingerprintCheck m with
+      | .panic => "panic || -"
+      | r => s!"{showCheck r} {dump m}")
   | ["LTKEY", u, r, p] =>
     some (s, showHex (Spec.md5 (hex! u ++ [58] ++ hex! r ++ [58] ++ hex! p)))
   | ["FPVAL", h] => some (s, s!"{fingerprintValue (hex! h)}")
